@@ -152,7 +152,8 @@ func (p *prop) runTables(res *core.Result, dup bool) {
 				}
 				h.Write([]byte(out + "\x00"))
 				res.Inc("irregular_words_alone")
-				for _, pre := range boundaryPrefixes {
+				// (the last four prefixes contain the word itself, in the same case: as a word, as a substring, twice)
+				for _, pre := range append(append([]string{}, boundaryPrefixes...), w+" to ", w+"ford ", "x"+w+"y-", w+" "+w+" ") {
 					res.Evals++
 					if !dup {
 						res.NonTrivial(o.name + "|" + pre + w)
